@@ -5,13 +5,16 @@
 
    Printer conventions (the text denotes the tree unambiguously):
      union            a | b | c              a member that is a union or a fun type is parenthesised
-     array            T[]                    an item that is a union, a fun type or an array is parenthesised
+     array            T[]                    an item that is a union or a fun type is parenthesised; an item that is itself
+                                             an array is parenthesised by the canonical printer `(T[])[]` (nested = true)
+                                             and not by the plain one `T[][]` (nested = false): both are documented
+                                             (`TYPE[]` applied repeatedly, `(TYPE)`) and both are read back
      table            table   table<K, V>    a fun type as K / V is parenthesised
      fun              fun(a: T, b?: T, c): R1, R2     a fun type as parameter / return type is parenthesised
      string constant  "s"   '"s"'            (the second form sets QuotesFlag)
      lists of types   T1, T2, T3             (type / return statements) a fun type is parenthesised unless last
      comment          <space>@text           kept verbatim
-   On the fragment without fun types, constants and parenthesised items `show_bare` prints exactly what
+   On the fragment without fun types and constants the canonical `show_bare true` prints exactly what
    annotateast.TypeConvertStr prints (Proofs/AnnPrinter.v).
    The implementation wraps every "one type" position in a MultiType and a parenthesised type is the MultiType
    of its content; `embed_*` says exactly where, `abs` forgets singleton MultiTypes again. *)
@@ -96,7 +99,7 @@ Definition doc_stat (s : dstat) : bool :=
   | DSEnum _ _ => true
   end.
 
-(* the one place where the unchanged code does not keep the comment verbatim (C16_enum_comment_refuted) *)
+(* an enum line with a trailing comment (the witness class of the repaired C16-enum-comment) *)
 Definition enum_with_comment (s : dstat) : bool :=
   match s with DSEnum _ (Some _) => true | _ => false end.
 
@@ -117,8 +120,8 @@ Fixpoint join (sep : bytes) (l : list bytes) : bytes :=
 
 Definition paren (b : bool) (s : bytes) : bytes := if b then [40] ++ s ++ [41] else s.
 Definition member_paren (t : dtype) : bool := is_union t || is_fun t.
-(* `nested` = parenthesise an array inside an array (the canonical printer does; the naive reading of the
-   documented `TYPE[]` rule does not: show_plain below) *)
+(* `nested` = parenthesise an array inside an array (the canonical printer does; the plain reading of the
+   documented `TYPE[]` rule does not: show_type_plain below) *)
 Definition item_paren (nested : bool) (t : dtype) : bool := is_union t || is_fun t || (nested && is_array t).
 Definition sub_paren (t : dtype) : bool := is_fun t.
 
@@ -217,7 +220,7 @@ Section Show.
     end.
 End Show.
 
-(* the canonical printer parenthesises nested arrays; the naive one writes string[][] *)
+(* the canonical printer parenthesises nested arrays; the plain one writes string[][] *)
 Definition show_type : dtype -> bytes := show_bare true.
 Definition show_line : dstat -> bytes := show_stat true.
 Definition show_type_plain : dtype -> bytes := show_bare false.
@@ -226,8 +229,13 @@ Definition show_line_plain : dstat -> bytes := show_stat false.
 (* ------------------------------------------------------------------ expected implementation AST *)
 Definition wrap_one (t : dtype) (a : atype) : atype := if is_union t then a else AMulti [a].
 Definition wrap_member (t : dtype) (a : atype) : atype := if member_paren t then wrap_one t a else a.
-Definition wrap_item (t : dtype) (a : atype) : atype := if item_paren true t then wrap_one t a else a.
 Definition wrap_sub (t : dtype) (a : atype) : atype := if sub_paren t then AMulti [wrap_one t a] else wrap_one t a.
+
+Section Embed.
+  (* the printer whose text is read: `(T[])[]` is ArrayType{MultiType{ArrayType T}}, `T[][]` is ArrayType{ArrayType T} *)
+  Variable nested : bool.
+
+Definition wrap_item (t : dtype) (a : atype) : atype := if item_paren nested t then wrap_one t a else a.
 
 (* what parserSingleType returns for the bare (unparenthesised) text of t; for a union: what parserOneType returns *)
 Fixpoint embed_bare (t : dtype) : atype :=
@@ -283,6 +291,13 @@ Definition embed_stat (s : dstat) : astat :=
   | DSVararg t c => SVararg (embed_one t) (comment_of c)
   | DSEnum st c => SEnum (if st then 1 else 2) (comment_of c)
   end.
+End Embed.
+
+(* the trees the canonical / the plain text must be read as *)
+Definition embed_type : dtype -> atype := embed_one true.
+Definition embed_type_plain : dtype -> atype := embed_one false.
+Definition embed_line : dstat -> astat := embed_stat true.
+Definition embed_line_plain : dstat -> astat := embed_stat false.
 
 (* ------------------------------------------------------------------ reading an implementation type back *)
 (* forgets singleton MultiTypes, colouring and constant comments; a parameter typed by the uncoloured default
@@ -321,7 +336,7 @@ Fixpoint flat (t : dtype) : dtype :=
   | _ => t
   end.
 
-(* ------------------------------------------------------------------ class predicates of the known findings *)
+(* ------------------------------------------------------------------ class predicates of the known (and repaired) findings *)
 Fixpoint has_nested_array (t : dtype) : bool :=
   match t with
   | DArray i => is_array i || has_nested_array i
@@ -362,7 +377,7 @@ Fixpoint has_const (t : dtype) : bool :=
   | DUnion ts => existsb has_const ts
   | _ => false
   end.
-(* an array whose item needs parentheses (union / fun / array): the printer drops them *)
+(* an array whose item needs parentheses (union / fun / array): the witness class of the repaired C16-printer-union *)
 Fixpoint has_paren_item (t : dtype) : bool :=
   match t with
   | DArray i => item_paren true i || has_paren_item i
@@ -433,7 +448,7 @@ Fixpoint parse_units_spec (us : list (list (N * bytes))) : Res frag :=
   end.
 Definition parse_fragment_spec (ls : list (N * bytes)) : Res frag := parse_units_spec (units ls).
 
-(* class predicates of the two fragment-level findings *)
+(* class predicate of the fragment-level finding *)
 (* (a) a unit whose head line yields no statement but which has continuation lines: they attach to an
        EARLIER alias (the malformed / foreign head line does not shield its neighbours) *)
 Definition head_yields_stat (u : list (N * bytes)) : bool :=
@@ -444,8 +459,9 @@ Definition head_yields_stat (u : list (N * bytes)) : bool :=
 Definition unit_shielded (u : list (N * bytes)) : bool :=
   head_yields_stat u || match u with _ :: _ :: _ => false | _ => true end.
 Definition frag_cont_after_bad (ls : list (N * bytes)) : bool := negb (forallb unit_shielded (units ls)).
-(* (b) an alias statement without a type is removed from Stats but its line stays in Lines *)
-Definition frag_lines_desync (ls : list (N * bytes)) : bool :=
+(* an alias statement without a type is read (and later removed together with its line): the witness class of the
+   repaired C16-alias-lines *)
+Definition frag_has_empty_alias (ls : list (N * bytes)) : bool :=
   match frag_loop frag_empty ls with
   | Ok fr => existsb empty_alias (f_stats fr)
   | _ => false
